@@ -167,10 +167,77 @@ def calendar_builder(ctx):
     return out
 
 
+def bucket_arithmetic(ctx):
+    """hour / day bucket starts over the whole u64 range (the Kani harnesses stop at 2^34)"""
+    q = ctx.q
+    r = Result("B-3", "naive_bucket_of(ts, Hour | Day) is the start of the hour / day that contains ts, for every u64 ts: a multiple "
+                      "of the bucket width, <= ts, and less than one width below it; the hour bucket of ts lies in the day bucket of ts")
+    r.functions = ["naive_bucket_of"]
+    r.bounds = "loop-free; ts over the full u64 range; machine arithmetic decided through the mod-2^64 integer encoding"
+    out = [r]
+    sn, _ = summary(ctx, "datetime-time_bucketing-naive_bucket_of.", "naive_bucket_of")
+    if sn is None or sn[1] is None:
+        r.status = "inconclusive"
+        r.notes.append("summary of naive_bucket_of not available")
+        return out
+    En, ret = sn
+    ts_n = En.sym("arg:ts", "u64")
+    g_n = z3.BitVec("disc(arg:gran)", 64)
+    variants = [En.structs.variant_index(f"TimeGranularity::{n}") for n in ("Hour", "Day")]
+    if None in variants:
+        r.status = "inconclusive"
+        r.notes.append("TimeGranularity variants not found")
+        return out
+    t = z3.BitVec("ts", 64)
+    bucket = lambda x, g: z3.substitute(ret, (ts_n, x), (g_n, z3.BitVecVal(g, 64)))
+    r.nontrivial = True
+    try:
+        for (g, width, name) in ((variants[0], 3600, "hour"), (variants[1], 86400, "day")):
+            b = bucket(t, g)
+            W = z3.BitVecVal(width, 64)
+            bad = z3.Or(z3.URem(b, W) != 0, z3.UGT(b, t), z3.UGE(t - b, W))
+            res, model = oblig.int_check(q, bad)
+            r.queries += 1
+            if res != z3.unsat:
+                if res == z3.sat:
+                    tv = model.get("ts", 0)
+                    r.status = "violated"
+                    r.witness = {"what": f"naive_bucket_of({tv}, {name}) = {oblig.eval_bv(b, model)} is not the start of the {name} containing {tv}",
+                                 "span": None, "call": "naive_bucket_of", "path": [], "model": {"ts": str(tv)}}
+                else:
+                    r.status = "inconclusive"
+                    r.notes.append("solver returned unknown")
+                return out
+        for ev in En.events:
+            if ev.func == "assert" and getattr(ev, "assert_ok", None) is not None:
+                res, model = oblig.int_check(q, ev.reach, z3.Not(ev.assert_ok))
+                r.queries += 1
+                if res != z3.unsat:
+                    r.status = "violated" if res == z3.sat else "inconclusive"
+                    r.witness = {"what": f"naive_bucket_of can panic ({ev.msg[:60]}) for ts = {(model or {}).get('arg:ts', '?')}",
+                                 "span": f"{ev.span[0]}:{ev.span[1]}" if ev.span else None, "call": "naive_bucket_of", "path": [], "model": {}}
+                    return out
+        hb = bucket(t, variants[0])
+        res, model = oblig.int_check(q, bucket(hb, variants[1]) != bucket(t, variants[1]))
+        r.queries += 1
+        if res == z3.sat:
+            r.status = "violated"
+            r.witness = {"what": f"the hour bucket of {model.get('ts', 0)} lies in another day bucket than the timestamp itself",
+                         "span": None, "call": "naive_bucket_of", "path": [], "model": {"ts": str(model.get("ts", 0))}}
+        elif res != z3.unsat:
+            r.status = "inconclusive"
+            r.notes.append("solver returned unknown")
+    except oblig.IntEncodingError as e:
+        r.status = "inconclusive"
+        r.notes.append(f"not encodable: {e}")
+    return out
+
+
 def obligations(ctx):
     q = ctx.q
     out = []
     out += calendar_builder(ctx)
+    out += bucket_arithmetic(ctx)
     r = Result("B-1", "calendar bucket ids preserve the order of timestamps (ts1 <= ts2 => bucket_id(ts1) <= "
                       "bucket_id(ts2), hour and day granularity), which the calendar's >= / <= / range lookups rely on")
     r.functions = ["TemporalCalendarIndex::bucket_id", "naive_bucket_of (inlined by substitution)"]
